@@ -13,7 +13,8 @@ RULE = ("random sequences (length 4..12) of build_force_matrix(when, angle_limit
         "initial_condition) / build_pressure_matrix / solve_pressure / get_system_velocity_per_frame(interval, angle_limit) "
         "over the 3..4 frames of generated series (8..25 cells, independently renumbered frames) and of the shipped furrow "
         "series, in any frame order. distinct = (series, operation sequence signature); non-trivial = at least one "
-        "successful solve compared with a fresh object")
+        "successful solve compared with a fresh object"
+        ' Added after the seeded rounds: a quarter of the series contain a lens-shaped cell.')
 MIN_DECISIVE = {"quick": 60, "thorough": 1200}
 REQUIRED_COUNTERS = ["ops", "fresh:compared", "untouched:compared", "structure:checked"]
 TECHNIQUE = "history checker: reported state after every operation vs a fresh object running the minimal replay (executable reference model)"
